@@ -154,7 +154,11 @@ class ExprMixin:
                 for c in reversed(owners):
                     v = self.read_attr(st, o, self.reg.attrs[(c, attr)], c + "." + attr, guard=[c]).e
                     val = v if val is None else z3.If(self.o.is_type(o.e, "ref:" + c), v, val)
-                yield st, SV(val, None)
+                decls = {self.reg.attrs[(c, attr)] for c in owners}
+                hint = decls.pop() if len(decls) == 1 else None
+                if hint and (hint.startswith("opt:") or "|" in hint or hint in ("any", "V")):
+                    hint = None
+                yield st, SV(val, hint)
                 return
         if cls is None:
             raise Unsupported("attribute %s on value of unknown class (%s)" % (attr, o.ty))
